@@ -97,12 +97,12 @@ class HistoryModel:
         self.debug_on = bool(scn.get("debug_on", False))
         self.expect: Dict[tuple, Expect] = {}
         for b in scn.get("prebuild", []):
-            self._register(b.get("env", "E"), b["dags"])
+            self._register(b.get("env", "E"), b["dags"], b.get("flip_async", False))
 
-    def _register(self, env: str, dnames: List[str]) -> None:
+    def _register(self, env: str, dnames: List[str], flip_async: bool = False) -> None:
         for dn in dnames:
             dg = self.spec["dags"][dn]
-            self.inst[f"{env}:{dn}"] = InstanceState(dn, dg["mc"], dg["is_async"])
+            self.inst[f"{env}:{dn}"] = InstanceState(dn, dg["mc"], dg["is_async"] != (flip_async and dn == self.spec["main"]))
 
     def alias_nodes(self, st: InstanceState, a: list) -> Any:
         """Reference node names an alias resolves to (list), or 'ValueError'."""
@@ -244,7 +244,7 @@ class HistoryModel:
         k = op["op"]
         key = (c, i, 0)
         if k == "build":
-            self._register(op.get("env", "E"), op["dags"])
+            self._register(op.get("env", "E"), op["dags"], op.get("flip_async", False))
             ex = Expect("raises" if any(v == "raise" for ps in (op.get("pauses") or {}).values() for v in ps.values()) else "none")
             ex.raises = ("InjectedError",)
             self.expect[key] = ex
